@@ -463,7 +463,7 @@ func (v Value) opMul(b Value) Value {
 	case TypeUint8:
 		return Value{t: t, num: float64(byte(v.num) * byte(b.num))}
 	default:
-		return Value{t: untypedInt, num: v.num * b.num}
+		return Value{t: untypedInt, num: v.num*b.num + 0} // + 0: an integer has no negative zero (-5 * 0)
 	}
 }
 func (v Value) opDiv(b Value) Value {
